@@ -53,7 +53,7 @@ CHECKS["C12"] = {
              "transposed dual with the frame recorded on exactly the paths that rewrite the payload and the default old "
              "frame read first; force-at-a-point wrenches are [p x f ; f]; mixed-frame arithmetic converts a copy of the "
              "right operand into the left operand's frame. The numerical identities (A->B->C = A->C to 1e-8) then rest "
-             "on the SE(3) algebra decided under C01/C04 and are not themselves decided. Also (R12.5): closure obligations on the primitives under changeFrame; identity-element branches (x + 0, x * 1) are recognised as value-preserving."),
+             "on the SE(3) algebra decided under C01/C04 and are not themselves decided. Also (R12.5): closure obligations on the primitives under changeFrame; identity-element branches (x + 0, x * 1) are recognised as value-preserving. R12.6: a 6-element array operand of + / - (either side) meets the 6x1 payload as a column (case analysis on isinstance(other, np.ndarray) and len(other) == 6), so (a + b) - b = a holds for array b."),
     "note": "Trusted: globalToLocal(a,b)=inv(a)*b and adjoint() (decided under C01/C04); NumPy broadcasting semantics.",
 }
 
@@ -67,7 +67,7 @@ CHECKS["C16"] = {
              "parent's distance established inside [min, max] for the current sample (no stale distance), strict-improvement "
              "choose-parent storing the compared cost, only the not-yet-inserted node is ever wired (acyclic by "
              "construction), path extraction by parent walk + goal, and a non-zero divisor in the progress display for "
-             "every budget >= 1. Numerical distances and the R-tree's nearest-neighbour answers are not decided. Also: R16.5 strict improvement is decided on must-hold facts at the re-parenting cost store (guard clauses understood); R16.8 the choose-parent scan visits every neighbour the query returned (no break/return, full range)."),
+             "every budget >= 1. Numerical distances and the R-tree's nearest-neighbour answers are not decided. Also: R16.5 strict improvement is decided on must-hold facts at the re-parenting cost store (guard clauses understood); R16.8 the choose-parent scan visits every neighbour the query returned (no break/return, full range). R16.9: the spatial index stores and queries a node at the point box of its own position for each supported dimensionality; a node is inserted without a parent only under the fact that the neighbour query came back empty; the goal is appended to the path unconditionally."),
     "note": "Trusted: purity of caller-supplied callbacks; rtree nearest() (library).",
 }
 
@@ -80,7 +80,7 @@ CHECKS["C15"] = {
              "the box (centre, half extents), precisely the six negated strict separating-axis inequalities, with the "
              "reject-next-box / accept / default-False control skeleton and (min, max) corner storage. Exactness including "
              "boundary contact then follows from the separating-axis theorem; this is as strong as a static argument gets "
-             "here. Floating-point rounding within 1e-9 of contact is not decided."),
+             "here. Floating-point rounding within 1e-9 of contact is not decided. R15.4: each planner owns its obstruction list (fresh list on every constructor path, no mutable default argument or class attribute, only addObstruction writes it), so the boxes tested are the ones registered on that planner."),
     "note": "Trusted: separating-axis theorem for a segment and an axis-aligned box; NumPy element-wise arithmetic.",
 }
 
@@ -126,7 +126,7 @@ CHECKS["C17"] = {
              "it indexes for every value of the loop counters (affine ranges, exact unrolling of constant-trip loops), and "
              "at every kernel call site of the Python layers the extents made explicit by argument slices agree with the "
              "contract's equalities (this is what finds an i-column view passed with i+1 joint values). 'Compiled equals "
-             "interpreted' is not decided (Numba code generation is the trusted base). R17.2 is path-sensitive: a shape environment follows named slices to the kernel call."),
+             "interpreted' is not decided (Numba code generation is the trusted base). R17.2 is path-sensitive: a shape environment follows named slices to the kernel call. Per-joint tables of the arm passed whole (extent num_dof) are compared with sliced vectors at kernel call sites."),
     "note": "Trusted: shape contracts in sa/engine/mrspec.py (docstrings); Numba code generation; callers not analysed pass arrays that satisfy the contracts.",
 }
 
@@ -240,7 +240,7 @@ CHECKS["C20"] = {
              "produced and appended per index of range(shape[0]) on every path, with width nd+6, precision nd below 9999 and nd "
              "forwarded through the <=4-D recursion; the dims dispatch is exhaustive; probes that raise on 0-d / shapeless "
              "objects sit inside the catch-all fallback; round() is only reached for finite |x| >= 9999. Exception freedom for "
-             "arbitrary Python objects (dynamic __str__/__format__) is NOT decided. The formatted value must be the array element itself on every path (alias-aware); locals are identified by role."),
+             "arbitrary Python objects (dynamic __str__/__format__) is NOT decided. The formatted value must be the array element itself on every path (alias-aware); locals are identified by role. R20.6: in the renderer for lists of transforms / wrenches every integer conversion of an entry is dominated by abs(x) >= 9999 and not isinf(x), so NaN and infinite entries are rendered instead of raising."),
     "note": "Trusted: Python string formatting of finite floats; the stated input kinds.",
 }
 
@@ -269,8 +269,8 @@ CHECKS["C09"] = {
              "poses, local joint tables and buffers by role; the FK joint tables are re-derived whenever the plate-fixed joints are "
              "replaced (re-spun platforms solve FK for their own geometry); FK/IK/move/spinCustom end with derived state computed "
              "from exactly the stored poses, so lengths reported after FK are recomputed geometry. Convergence of the solvers to "
-             "1e-3 is numerical and not decided. R09.2 discovers class-wide every instance field that caches a function of the plate-fixed joint tables (by data dependence) and requires every writer of the tables to refresh or reset each of them on every path; kernel formulas are decided by normal-form equality with a reference implementation written from the definition."),
-    "note": "Trusted: SPFKinSpaceR's Newton iteration (not analysed numerically); tokens name one pose value per path.",
+             "1e-3 is numerical and not decided. R09.2 discovers class-wide every instance field that caches a function of the plate-fixed joint tables (by data dependence) and requires every writer of the tables to refresh or reset each of them on every path; kernel formulas are decided by normal-form equality with a reference implementation written from the definition. R09.5: in the Newton FK kernel the height floor applied to the iterate is at most leg_ext_min/2 (a higher floor excludes poses of flat platforms), the residual driven to zero is squared joint distance minus squared requested length, and the top joints are rotated by the current guess."),
+    "note": "Trusted: convergence of SPFKinSpaceR's Newton iteration and its Jacobian (not analysed numerically); the bound leg_ext_min/2 on the height floor is taken from the kernel as exercised; tokens name one pose value per path.",
 }
 
 CHECKS["C10"] = {
@@ -283,7 +283,7 @@ CHECKS["C10"] = {
              "listed writers touch derived state; each validator consults its own switch and constraint, never upgrades a False, "
              "corrects only when allowed and re-validates deep enough; pure queries end with the poses they started with; no helper "
              "can re-enter itself with unchanged constant arguments (every call returns). That the constraint predicates compute "
-             "the right geometry is not decided."),
+             "the right geometry is not decided. R10.7: the validity FK / IK return was evaluated for the state they leave: after the validate() whose verdict is returned the platform is moved only by a validating call or by one rigid motion of both plates through the current relative transform."),
     "note": "Trusted: external solvers only call the closure they are given; a token names one pose value along a path.",
 }
 
